@@ -305,3 +305,15 @@ Proof.
     unfold matching_tab in E at 3. rewrite number_fst in E. unfold matching_sel in *. now rewrite <- E.
   - intros [obj Hb]. destruct (matching_T2 n es obj Hwf Hb) as [a [Ha _]]. eauto.
 Qed.
+
+(* ---------- the formulas mention the documented variables only ---------- *)
+Lemma count_in_range M p : irs_in_range (count_numvar M p) (count_ir M p).
+Proof.
+  unfold count_ir, count_numvar. apply irs_in_range_map. intros i x _ Hx. cbn [ir_lits] in Hx.
+  now apply ids_where_range in Hx.
+Qed.
+Lemma matching_in_range n es : irs_in_range (matching_numvar es) (matching_ir n es).
+Proof.
+  unfold matching_ir, matching_numvar. apply irs_in_range_map. intros u x _ Hx. cbn [ir_lits] in Hx.
+  unfold incident_ids in Hx. apply in_app_or in Hx as [Hx|Hx]; now apply ids_where_range in Hx.
+Qed.
